@@ -16,45 +16,26 @@ use super::*;
 use crate::token::verif_kani_token::leaf_token_spanned;
 use crate::verif_prelude::*;
 
-//@hoist src/rule.rs | branch | use crate::token::LeafKind::
-//@hoist src/rule.rs | branch | use crate::token::Wildcard::
-//@hoist src/rule.rs | branch | use Terminals::
-//@hoist src/rule.rs | branch | struct CorrelatedError
-//@hoist src/rule.rs | branch | impl CorrelatedError
-//@hoist src/rule.rs | branch | struct Outer<
-//@hoist src/rule.rs | branch | impl<'i, 't, A> Outer<'i, 't, A> {
-//@hoist src/rule.rs | branch | impl<'i, 't, A> Clone for Outer
-//@hoist src/rule.rs | branch | impl<'i, 't, A> Copy for Outer
-//@hoist src/rule.rs | branch | impl<'i, 't, A> Default for Outer
-//@hoist src/rule.rs | branch | fn is_some_and_any_in<
-//@hoist src/rule.rs | branch | fn is_boundary<
-//@hoist src/rule.rs | branch | fn is_zom<
-//@hoist src/rule.rs | branch | fn has_starting_boundary<
-//@hoist src/rule.rs | branch | fn has_ending_boundary<
-//@hoist src/rule.rs | branch | fn has_starting_zom<
-//@hoist src/rule.rs | branch | fn has_ending_zom<
-//@hoist src/rule.rs | branch | fn check_branch<
-//@hoist src/rule.rs | branch | fn check_alternation<
-//@hoist src/rule.rs | branch | fn check_repetition<
+//@hoist-all src/rule.rs | branch
 
 type Tk = Token<'static, crate::diagnostics::Span>;
 // leaf kinds as in the token unit: 0 literal, 1 `?`, 2 `*`, 3 `$`, 4 class, 5 separator, 6 tree
 // wildcard, 7 rooted tree wildcard
-fn tok(k: u8) -> Tk {
+fn v_tok(k: u8) -> Tk {
     leaf_token_spanned(k, (0, 1))
 }
-fn is_b(k: u8) -> bool {
+fn v_is_b(k: u8) -> bool {
     k >= 5
 }
-fn is_z(k: u8) -> bool {
+fn v_is_z(k: u8) -> bool {
     k == 2 || k == 3
 }
-fn is_rooting(k: u8) -> bool {
+fn v_is_rooting(k: u8) -> bool {
     k == 5 || k == 7
 }
 // error kinds: 0 none, 1 RootedSubGlob, 2 SingularTree, 3 SingularZeroOrMore, 4 AdjacentBoundary,
 // 5 AdjacentZeroOrMore, 6 other
-fn kind_of(r: &Result<(), CorrelatedError>) -> u8 {
+fn v_kind_of(r: &Result<(), CorrelatedError>) -> u8 {
     match r {
         Ok(()) => 0,
         Err(e) => match e.kind {
@@ -77,36 +58,290 @@ fn kind_of(r: &Result<(), CorrelatedError>) -> u8 {
 //@ post: the REAL check_branch (hoisted) rejects it exactly when it consists solely of a tree wildcard, and then as a singular tree; nothing else is rejected without a neighbour
 fn ob_c06_branch_no_neighbours(two: bool, ks: u8, ke: u8) {
     vassume!(ks <= 7 && ke <= 7);
-    let (ts, te) = (tok(ks), tok(ke));
+    let (ts, te) = (v_tok(ks), v_tok(ke));
     let terminals = if two { Terminals::StartEnd(&ts, &te) } else { Terminals::Only(&ts) };
     let outer = Outer { left: None, right: None };
     vcover!(!two && ks == 6);
     vcover!(two && ks == 6 && ke == 5);
     let r = check_branch(terminals, outer);
-    let k = kind_of(&r);
+    let k = v_kind_of(&r);
     assert!((k != 0) == (!two && ks >= 6), "C06 without neighbours only a branch that is solely a tree wildcard is rejected");
     assert!(k == 0 || k == 2, "C06 ... as a singular tree");
     core::mem::forget(r);
     core::mem::forget((ts, te));
 }
 
+// one (left neighbour, right neighbour) pair of CONSTANT kinds (8 = no neighbour) against symbolic terminals
+fn branch_case(two: bool, ks: u8, ke: u8, kl: u8, kr: u8) {
+    let (ts, te) = (v_tok(ks), v_tok(ke));
+    let (tl, tr) = (v_tok(if kl < 8 { kl } else { 0 }), v_tok(if kr < 8 { kr } else { 0 }));
+    let terminals = if two { Terminals::StartEnd(&ts, &te) } else { Terminals::Only(&ts) };
+    let ke = if two { ke } else { ks };
+    let (hl, hr) = (kl < 8, kr < 8);
+    let outer = Outer { left: if hl { Some(&tl) } else { None }, right: if hr { Some(&tr) } else { None } };
+    let r = check_branch(terminals, outer);
+    let k = v_kind_of(&r);
+    let adjacent_boundary = (v_is_b(ks) && hl && v_is_b(kl)) || (v_is_b(ke) && hr && v_is_b(kr));
+    let singular_tree = !two && ks >= 6;
+    let adjacent_zom = (v_is_z(ks) && hl && v_is_z(kl)) || (v_is_z(ke) && hr && v_is_z(kr));
+    assert!((k != 0) == (adjacent_boundary || singular_tree || adjacent_zom), "C06 a branch is rejected exactly when a boundary or zero-or-more wildcard at its edge meets one at the facing edge of ITS neighbour, or when it is solely a tree wildcard");
+    if k != 0 {
+        assert!((k == 4 && adjacent_boundary) || (k == 2 && singular_tree) || (k == 5 && adjacent_zom), "C06 the reported rule is one that is violated");
+    }
+    core::mem::forget(r);
+    core::mem::forget((ts, te, tl, tr));
+}
+fn branch_cases(two: bool, ks: u8, ke: u8, kl: u8) {
+    vassume!(ks <= 7 && ke <= 7);
+    vcover!(two && ks == 5 && ke == 2);
+    branch_case(two, ks, ke, kl, 0);
+    branch_case(two, ks, ke, kl, 1);
+    branch_case(two, ks, ke, kl, 2);
+    branch_case(two, ks, ke, kl, 3);
+    branch_case(two, ks, ke, kl, 4);
+    branch_case(two, ks, ke, kl, 5);
+    branch_case(two, ks, ke, kl, 6);
+    branch_case(two, ks, ke, kl, 7);
+    branch_case(two, ks, ke, kl, 8);
+}
+
+//@ob C06.branch.neighbours.left-none
+//@ props: C06 C05
+//@ kind: complete
+//@ tier: quick
+//@ unwind: 5
+//@ timeout: 1500
+//@ fns: src/rule.rs::branch::check_branch src/rule.rs::branch::has_starting_boundary src/rule.rs::branch::has_ending_boundary src/rule.rs::branch::has_starting_zom src/rule.rs::branch::has_ending_zom src/rule.rs::branch::CorrelatedError::new
+//@ pre: a branch whose terminals are any leaf tokens (all eight kinds, one or two terminals); no left neighbour; on the right any leaf token (each of the eight kinds) or nothing -- leaf neighbours only (a neighbour that is itself a branch goes through the starting / ending walks, C12.seq.starting-ending + T3)
+//@ post: the REAL check_branch rejects the branch exactly when a component boundary (or zero-or-more wildcard) at its left / right edge faces one at the adjacent edge of the neighbour on that side, or when the branch is solely a tree wildcard; the reported rule is a violated one
+fn ob_c06_branch_neighbours_left_none(two: bool, ks: u8, ke: u8) {
+    branch_cases(two, ks, ke, 8);
+}
+
+//@ob C06.branch.neighbours.left-separator
+//@ props: C06 C05
+//@ kind: complete
+//@ tier: thorough
+//@ unwind: 5
+//@ timeout: 1500
+//@ fns: src/rule.rs::branch::check_branch src/rule.rs::branch::has_starting_boundary src/rule.rs::branch::has_ending_boundary src/rule.rs::branch::has_starting_zom src/rule.rs::branch::has_ending_zom src/rule.rs::branch::CorrelatedError::new
+//@ pre: a branch whose terminals are any leaf tokens (all eight kinds, one or two terminals); a separator on the left; on the right any leaf token (each of the eight kinds) or nothing -- leaf neighbours only (a neighbour that is itself a branch goes through the starting / ending walks, C12.seq.starting-ending + T3)
+//@ post: the REAL check_branch rejects the branch exactly when a component boundary (or zero-or-more wildcard) at its left / right edge faces one at the adjacent edge of the neighbour on that side, or when the branch is solely a tree wildcard; the reported rule is a violated one
+fn ob_c06_branch_neighbours_left_separator(two: bool, ks: u8, ke: u8) {
+    branch_cases(two, ks, ke, 5);
+}
+
+//@ob C06.branch.neighbours.left-zom
+//@ props: C06 C05
+//@ kind: complete
+//@ tier: thorough
+//@ unwind: 5
+//@ timeout: 1500
+//@ fns: src/rule.rs::branch::check_branch src/rule.rs::branch::has_starting_boundary src/rule.rs::branch::has_ending_boundary src/rule.rs::branch::has_starting_zom src/rule.rs::branch::has_ending_zom src/rule.rs::branch::CorrelatedError::new
+//@ pre: a branch whose terminals are any leaf tokens (all eight kinds, one or two terminals); a `*` on the left; on the right any leaf token (each of the eight kinds) or nothing -- leaf neighbours only (a neighbour that is itself a branch goes through the starting / ending walks, C12.seq.starting-ending + T3)
+//@ post: the REAL check_branch rejects the branch exactly when a component boundary (or zero-or-more wildcard) at its left / right edge faces one at the adjacent edge of the neighbour on that side, or when the branch is solely a tree wildcard; the reported rule is a violated one
+fn ob_c06_branch_neighbours_left_zom(two: bool, ks: u8, ke: u8) {
+    branch_cases(two, ks, ke, 2);
+}
+
+//@ob C06.branch.neighbours.left-literal
+//@ props: C06 C05
+//@ kind: complete
+//@ tier: thorough
+//@ unwind: 5
+//@ timeout: 1500
+//@ fns: src/rule.rs::branch::check_branch src/rule.rs::branch::has_starting_boundary src/rule.rs::branch::has_ending_boundary src/rule.rs::branch::has_starting_zom src/rule.rs::branch::has_ending_zom src/rule.rs::branch::CorrelatedError::new
+//@ pre: a branch whose terminals are any leaf tokens (all eight kinds, one or two terminals); a literal on the left; on the right any leaf token (each of the eight kinds) or nothing -- leaf neighbours only (a neighbour that is itself a branch goes through the starting / ending walks, C12.seq.starting-ending + T3)
+//@ post: the REAL check_branch rejects the branch exactly when a component boundary (or zero-or-more wildcard) at its left / right edge faces one at the adjacent edge of the neighbour on that side, or when the branch is solely a tree wildcard; the reported rule is a violated one
+fn ob_c06_branch_neighbours_left_literal(two: bool, ks: u8, ke: u8) {
+    branch_cases(two, ks, ke, 0);
+}
+
+//@ob C06.branch.neighbours.left-one
+//@ props: C06 C05
+//@ kind: complete
+//@ tier: thorough
+//@ unwind: 5
+//@ timeout: 1500
+//@ fns: src/rule.rs::branch::check_branch src/rule.rs::branch::has_starting_boundary src/rule.rs::branch::has_ending_boundary src/rule.rs::branch::has_starting_zom src/rule.rs::branch::has_ending_zom src/rule.rs::branch::CorrelatedError::new
+//@ pre: a branch whose terminals are any leaf tokens (all eight kinds, one or two terminals); a `?` on the left; on the right any leaf token (each of the eight kinds) or nothing -- leaf neighbours only (a neighbour that is itself a branch goes through the starting / ending walks, C12.seq.starting-ending + T3)
+//@ post: the REAL check_branch rejects the branch exactly when a component boundary (or zero-or-more wildcard) at its left / right edge faces one at the adjacent edge of the neighbour on that side, or when the branch is solely a tree wildcard; the reported rule is a violated one
+fn ob_c06_branch_neighbours_left_one(two: bool, ks: u8, ke: u8) {
+    branch_cases(two, ks, ke, 1);
+}
+
+//@ob C06.branch.neighbours.left-lazy
+//@ props: C06 C05
+//@ kind: complete
+//@ tier: thorough
+//@ unwind: 5
+//@ timeout: 1500
+//@ fns: src/rule.rs::branch::check_branch src/rule.rs::branch::has_starting_boundary src/rule.rs::branch::has_ending_boundary src/rule.rs::branch::has_starting_zom src/rule.rs::branch::has_ending_zom src/rule.rs::branch::CorrelatedError::new
+//@ pre: a branch whose terminals are any leaf tokens (all eight kinds, one or two terminals); a `$` on the left; on the right any leaf token (each of the eight kinds) or nothing -- leaf neighbours only (a neighbour that is itself a branch goes through the starting / ending walks, C12.seq.starting-ending + T3)
+//@ post: the REAL check_branch rejects the branch exactly when a component boundary (or zero-or-more wildcard) at its left / right edge faces one at the adjacent edge of the neighbour on that side, or when the branch is solely a tree wildcard; the reported rule is a violated one
+fn ob_c06_branch_neighbours_left_lazy(two: bool, ks: u8, ke: u8) {
+    branch_cases(two, ks, ke, 3);
+}
+
+//@ob C06.branch.neighbours.left-class
+//@ props: C06 C05
+//@ kind: complete
+//@ tier: thorough
+//@ unwind: 5
+//@ timeout: 1500
+//@ fns: src/rule.rs::branch::check_branch src/rule.rs::branch::has_starting_boundary src/rule.rs::branch::has_ending_boundary src/rule.rs::branch::has_starting_zom src/rule.rs::branch::has_ending_zom src/rule.rs::branch::CorrelatedError::new
+//@ pre: a branch whose terminals are any leaf tokens (all eight kinds, one or two terminals); a class on the left; on the right any leaf token (each of the eight kinds) or nothing -- leaf neighbours only (a neighbour that is itself a branch goes through the starting / ending walks, C12.seq.starting-ending + T3)
+//@ post: the REAL check_branch rejects the branch exactly when a component boundary (or zero-or-more wildcard) at its left / right edge faces one at the adjacent edge of the neighbour on that side, or when the branch is solely a tree wildcard; the reported rule is a violated one
+fn ob_c06_branch_neighbours_left_class(two: bool, ks: u8, ke: u8) {
+    branch_cases(two, ks, ke, 4);
+}
+
+//@ob C06.branch.neighbours.left-tree
+//@ props: C06 C05
+//@ kind: complete
+//@ tier: thorough
+//@ unwind: 5
+//@ timeout: 1500
+//@ fns: src/rule.rs::branch::check_branch src/rule.rs::branch::has_starting_boundary src/rule.rs::branch::has_ending_boundary src/rule.rs::branch::has_starting_zom src/rule.rs::branch::has_ending_zom src/rule.rs::branch::CorrelatedError::new
+//@ pre: a branch whose terminals are any leaf tokens (all eight kinds, one or two terminals); a tree wildcard on the left; on the right any leaf token (each of the eight kinds) or nothing -- leaf neighbours only (a neighbour that is itself a branch goes through the starting / ending walks, C12.seq.starting-ending + T3)
+//@ post: the REAL check_branch rejects the branch exactly when a component boundary (or zero-or-more wildcard) at its left / right edge faces one at the adjacent edge of the neighbour on that side, or when the branch is solely a tree wildcard; the reported rule is a violated one
+fn ob_c06_branch_neighbours_left_tree(two: bool, ks: u8, ke: u8) {
+    branch_cases(two, ks, ke, 6);
+}
+
+//@ob C06.branch.neighbours.left-rooted-tree
+//@ props: C06 C05
+//@ kind: complete
+//@ tier: thorough
+//@ unwind: 5
+//@ timeout: 1500
+//@ fns: src/rule.rs::branch::check_branch src/rule.rs::branch::has_starting_boundary src/rule.rs::branch::has_ending_boundary src/rule.rs::branch::has_starting_zom src/rule.rs::branch::has_ending_zom src/rule.rs::branch::CorrelatedError::new
+//@ pre: a branch whose terminals are any leaf tokens (all eight kinds, one or two terminals); a rooted tree wildcard on the left; on the right any leaf token (each of the eight kinds) or nothing -- leaf neighbours only (a neighbour that is itself a branch goes through the starting / ending walks, C12.seq.starting-ending + T3)
+//@ post: the REAL check_branch rejects the branch exactly when a component boundary (or zero-or-more wildcard) at its left / right edge faces one at the adjacent edge of the neighbour on that side, or when the branch is solely a tree wildcard; the reported rule is a violated one
+fn ob_c06_branch_neighbours_left_rooted_tree(two: bool, ks: u8, ke: u8) {
+    branch_cases(two, ks, ke, 7);
+}
+
 //@ob C06.alternation.rooted
 //@ props: C06 C12 C05
 //@ kind: complete
-//@ unwind: 5
-//@ fns: src/rule.rs::branch::check_alternation src/rule.rs::Terminals::map
-//@ pre: an alternation branch with any leaf terminals; a left neighbour present (any token) or absent
+//@ tier: quick
+//@ unwind: 6
+//@ timeout: 1500
+//@ fns: src/rule.rs::branch::check_alternation src/rule.rs::branch::has_starting_root src/rule.rs::branch::is_rooting src/rule.rs::Terminals::map
+//@ pre: an alternation branch with leaf terminals: every kind of first terminal (all eight), alone or followed by a literal as last terminal; a left / right neighbour present (any token) or absent. Terminal kinds are constants at each call site (a symbolic last terminal gave no verdict in 15 min once the first terminal is searched with the starting walk)
 //@ post: the REAL check_alternation rejects the branch (rooted sub-glob) exactly when nothing precedes the alternation and the branch begins with a separator or a rooted tree wildcard -- no alternation branch can root the expression
-fn ob_c06_alternation_rooted(two: bool, ks: u8, ke: u8, has_left: bool, has_right: bool) {
-    vassume!(ks <= 7 && ke <= 7);
-    let (ts, te, tl, tr) = (tok(ks), tok(ke), tok(0), tok(0));
+fn ob_c06_alternation_rooted(has_left: bool, has_right: bool) {
+    vcover!(!has_left);
+    vcover!(has_left && has_right);
+    alternation_case(true, 0, 0, has_left, has_right);
+    alternation_case(true, 1, 0, has_left, has_right);
+    alternation_case(true, 2, 0, has_left, has_right);
+    alternation_case(true, 3, 0, has_left, has_right);
+    alternation_case(true, 4, 0, has_left, has_right);
+    alternation_case(true, 5, 0, has_left, has_right);
+    alternation_case(true, 6, 0, has_left, has_right);
+    alternation_case(true, 7, 0, has_left, has_right);
+    alternation_case(false, 0, 0, has_left, has_right);
+    alternation_case(false, 1, 0, has_left, has_right);
+    alternation_case(false, 2, 0, has_left, has_right);
+    alternation_case(false, 3, 0, has_left, has_right);
+    alternation_case(false, 4, 0, has_left, has_right);
+    alternation_case(false, 5, 0, has_left, has_right);
+    alternation_case(false, 6, 0, has_left, has_right);
+    alternation_case(false, 7, 0, has_left, has_right);
+}
+//@ob C06.alternation.rooted.all-ends
+//@ props: C06 C12 C05
+//@ kind: complete
+//@ tier: thorough
+//@ unwind: 6
+//@ timeout: 1500
+//@ fns: src/rule.rs::branch::check_alternation src/rule.rs::branch::has_starting_root src/rule.rs::branch::is_rooting src/rule.rs::Terminals::map
+//@ pre: an alternation branch with leaf terminals: every kind of first AND last terminal (8 x 8), and every single terminal; a left / right neighbour present (any token) or absent. Terminal kinds are constants at each call site (a symbolic last terminal gave no verdict in 15 min once the first terminal is searched with the starting walk)
+//@ post: the REAL check_alternation rejects the branch (rooted sub-glob) exactly when nothing precedes the alternation and the branch begins with a separator or a rooted tree wildcard -- no alternation branch can root the expression
+fn ob_c06_alternation_rooted_all_ends(has_left: bool, has_right: bool) {
+    vcover!(!has_left);
+    alternation_case(true, 0, 0, has_left, has_right);
+    alternation_case(true, 0, 1, has_left, has_right);
+    alternation_case(true, 0, 2, has_left, has_right);
+    alternation_case(true, 0, 3, has_left, has_right);
+    alternation_case(true, 0, 4, has_left, has_right);
+    alternation_case(true, 0, 5, has_left, has_right);
+    alternation_case(true, 0, 6, has_left, has_right);
+    alternation_case(true, 0, 7, has_left, has_right);
+    alternation_case(true, 1, 0, has_left, has_right);
+    alternation_case(true, 1, 1, has_left, has_right);
+    alternation_case(true, 1, 2, has_left, has_right);
+    alternation_case(true, 1, 3, has_left, has_right);
+    alternation_case(true, 1, 4, has_left, has_right);
+    alternation_case(true, 1, 5, has_left, has_right);
+    alternation_case(true, 1, 6, has_left, has_right);
+    alternation_case(true, 1, 7, has_left, has_right);
+    alternation_case(true, 2, 0, has_left, has_right);
+    alternation_case(true, 2, 1, has_left, has_right);
+    alternation_case(true, 2, 2, has_left, has_right);
+    alternation_case(true, 2, 3, has_left, has_right);
+    alternation_case(true, 2, 4, has_left, has_right);
+    alternation_case(true, 2, 5, has_left, has_right);
+    alternation_case(true, 2, 6, has_left, has_right);
+    alternation_case(true, 2, 7, has_left, has_right);
+    alternation_case(true, 3, 0, has_left, has_right);
+    alternation_case(true, 3, 1, has_left, has_right);
+    alternation_case(true, 3, 2, has_left, has_right);
+    alternation_case(true, 3, 3, has_left, has_right);
+    alternation_case(true, 3, 4, has_left, has_right);
+    alternation_case(true, 3, 5, has_left, has_right);
+    alternation_case(true, 3, 6, has_left, has_right);
+    alternation_case(true, 3, 7, has_left, has_right);
+    alternation_case(true, 4, 0, has_left, has_right);
+    alternation_case(true, 4, 1, has_left, has_right);
+    alternation_case(true, 4, 2, has_left, has_right);
+    alternation_case(true, 4, 3, has_left, has_right);
+    alternation_case(true, 4, 4, has_left, has_right);
+    alternation_case(true, 4, 5, has_left, has_right);
+    alternation_case(true, 4, 6, has_left, has_right);
+    alternation_case(true, 4, 7, has_left, has_right);
+    alternation_case(true, 5, 0, has_left, has_right);
+    alternation_case(true, 5, 1, has_left, has_right);
+    alternation_case(true, 5, 2, has_left, has_right);
+    alternation_case(true, 5, 3, has_left, has_right);
+    alternation_case(true, 5, 4, has_left, has_right);
+    alternation_case(true, 5, 5, has_left, has_right);
+    alternation_case(true, 5, 6, has_left, has_right);
+    alternation_case(true, 5, 7, has_left, has_right);
+    alternation_case(true, 6, 0, has_left, has_right);
+    alternation_case(true, 6, 1, has_left, has_right);
+    alternation_case(true, 6, 2, has_left, has_right);
+    alternation_case(true, 6, 3, has_left, has_right);
+    alternation_case(true, 6, 4, has_left, has_right);
+    alternation_case(true, 6, 5, has_left, has_right);
+    alternation_case(true, 6, 6, has_left, has_right);
+    alternation_case(true, 6, 7, has_left, has_right);
+    alternation_case(true, 7, 0, has_left, has_right);
+    alternation_case(true, 7, 1, has_left, has_right);
+    alternation_case(true, 7, 2, has_left, has_right);
+    alternation_case(true, 7, 3, has_left, has_right);
+    alternation_case(true, 7, 4, has_left, has_right);
+    alternation_case(true, 7, 5, has_left, has_right);
+    alternation_case(true, 7, 6, has_left, has_right);
+    alternation_case(true, 7, 7, has_left, has_right);
+    alternation_case(false, 0, 0, has_left, has_right);
+    alternation_case(false, 1, 0, has_left, has_right);
+    alternation_case(false, 2, 0, has_left, has_right);
+    alternation_case(false, 3, 0, has_left, has_right);
+    alternation_case(false, 4, 0, has_left, has_right);
+    alternation_case(false, 5, 0, has_left, has_right);
+    alternation_case(false, 6, 0, has_left, has_right);
+    alternation_case(false, 7, 0, has_left, has_right);
+}
+fn alternation_case(two: bool, ks: u8, ke: u8, has_left: bool, has_right: bool) {
+    let (ts, te, tl, tr) = (v_tok(ks), v_tok(ke), v_tok(0), v_tok(0));
     let terminals = if two { Terminals::StartEnd(&ts, &te) } else { Terminals::Only(&ts) };
     let outer = Outer { left: if has_left { Some(&tl) } else { None }, right: if has_right { Some(&tr) } else { None } };
-    vcover!(!has_left && ks == 7 && two);
-    vcover!(has_left && ks == 5);
     let r = check_alternation(terminals, outer);
-    let k = kind_of(&r);
-    assert!((k != 0) == (!has_left && is_rooting(ks)), "C06 an alternation branch that can root the expression is rejected, and only such a branch");
+    let k = v_kind_of(&r);
+    assert!((k != 0) == (!has_left && v_is_rooting(ks)), "C06 an alternation branch that can root the expression is rejected, and only such a branch");
     assert!(k == 0 || k == 1, "C06 ... as a rooted sub-glob");
     core::mem::forget(r);
     core::mem::forget((ts, te, tl, tr));
@@ -115,26 +350,138 @@ fn ob_c06_alternation_rooted(two: bool, ks: u8, ke: u8, has_left: bool, has_righ
 //@ob C06.repetition.table
 //@ props: C06 C12 C05
 //@ kind: complete
-//@ unwind: 5
-//@ fns: src/rule.rs::branch::check_repetition src/rule.rs::Terminals::map src/token/variance/natural.rs::NaturalRange::lower src/token/mod.rs::Token::boundary
-//@ pre: a repetition body with any leaf terminals; any ordered, non-degenerate bounds (the `bounds` rule runs first); a left neighbour present or absent
+//@ tier: quick
+//@ unwind: 6
+//@ timeout: 1500
+//@ fns: src/rule.rs::branch::check_repetition src/rule.rs::branch::has_starting_root src/rule.rs::Terminals::map src/token/variance/natural.rs::NaturalRange::lower src/token/mod.rs::Token::boundary
+//@ pre: a repetition body with leaf terminals: every kind of first terminal (all eight), alone or with a literal or a separator as last terminal; any ordered, non-degenerate bounds (the `bounds` rule runs first); a left neighbour present or absent. Terminal kinds are constants at each call site
 //@ post: the REAL check_repetition rejects the body exactly when (a) nothing precedes the repetition, it may occur zero times (lower bound 0, WHATEVER the upper bound) and its body begins with a separator or a rooted tree wildcard -- no optional repetition can root the expression --, or (b) the body begins and ends with a component boundary (repeating it would make them adjacent), or (c) the body is solely a separator or solely a zero-or-more wildcard
-fn ob_c06_repetition_table(two: bool, ks: u8, ke: u8, has_left: bool, lower: usize, bounded: bool, upper: usize) {
-    vassume!(ks <= 7 && ke <= 7);
+fn ob_c06_repetition_table(has_left: bool, lower: usize, bounded: bool, upper: usize) {
     vassume!(!bounded || (lower <= upper && upper != 0));
-    let (ts, te, tl) = (tok(ks), tok(ke), tok(0));
+    vcover!(lower == 0 && bounded && upper == 3 && !has_left);
+    let up = if bounded { Some(upper) } else { None };
+    repetition_case(true, 0, 0, has_left, lower, up);
+    repetition_case(true, 0, 5, has_left, lower, up);
+    repetition_case(true, 1, 0, has_left, lower, up);
+    repetition_case(true, 1, 5, has_left, lower, up);
+    repetition_case(true, 2, 0, has_left, lower, up);
+    repetition_case(true, 2, 5, has_left, lower, up);
+    repetition_case(true, 3, 0, has_left, lower, up);
+    repetition_case(true, 3, 5, has_left, lower, up);
+    repetition_case(true, 4, 0, has_left, lower, up);
+    repetition_case(true, 4, 5, has_left, lower, up);
+    repetition_case(true, 5, 0, has_left, lower, up);
+    repetition_case(true, 5, 5, has_left, lower, up);
+    repetition_case(true, 6, 0, has_left, lower, up);
+    repetition_case(true, 6, 5, has_left, lower, up);
+    repetition_case(true, 7, 0, has_left, lower, up);
+    repetition_case(true, 7, 5, has_left, lower, up);
+    repetition_case(false, 0, 0, has_left, lower, up);
+    repetition_case(false, 1, 0, has_left, lower, up);
+    repetition_case(false, 2, 0, has_left, lower, up);
+    repetition_case(false, 3, 0, has_left, lower, up);
+    repetition_case(false, 4, 0, has_left, lower, up);
+    repetition_case(false, 5, 0, has_left, lower, up);
+    repetition_case(false, 6, 0, has_left, lower, up);
+    repetition_case(false, 7, 0, has_left, lower, up);
+}
+//@ob C06.repetition.table.all-ends
+//@ props: C06 C12 C05
+//@ kind: complete
+//@ tier: thorough
+//@ unwind: 6
+//@ timeout: 1500
+//@ fns: src/rule.rs::branch::check_repetition src/rule.rs::branch::has_starting_root src/rule.rs::Terminals::map src/token/variance/natural.rs::NaturalRange::lower src/token/mod.rs::Token::boundary
+//@ pre: a repetition body with leaf terminals: every kind of first AND last terminal (8 x 8), and every single terminal; any ordered, non-degenerate bounds (the `bounds` rule runs first); a left neighbour present or absent. Terminal kinds are constants at each call site
+//@ post: the REAL check_repetition rejects the body exactly when (a) nothing precedes the repetition, it may occur zero times (lower bound 0, WHATEVER the upper bound) and its body begins with a separator or a rooted tree wildcard -- no optional repetition can root the expression --, or (b) the body begins and ends with a component boundary (repeating it would make them adjacent), or (c) the body is solely a separator or solely a zero-or-more wildcard
+fn ob_c06_repetition_table_all_ends(has_left: bool, lower: usize, bounded: bool, upper: usize) {
+    vassume!(!bounded || (lower <= upper && upper != 0));
+    vcover!(lower == 0 && bounded && upper == 3 && !has_left);
+    let up = if bounded { Some(upper) } else { None };
+    repetition_case(true, 0, 0, has_left, lower, up);
+    repetition_case(true, 0, 1, has_left, lower, up);
+    repetition_case(true, 0, 2, has_left, lower, up);
+    repetition_case(true, 0, 3, has_left, lower, up);
+    repetition_case(true, 0, 4, has_left, lower, up);
+    repetition_case(true, 0, 5, has_left, lower, up);
+    repetition_case(true, 0, 6, has_left, lower, up);
+    repetition_case(true, 0, 7, has_left, lower, up);
+    repetition_case(true, 1, 0, has_left, lower, up);
+    repetition_case(true, 1, 1, has_left, lower, up);
+    repetition_case(true, 1, 2, has_left, lower, up);
+    repetition_case(true, 1, 3, has_left, lower, up);
+    repetition_case(true, 1, 4, has_left, lower, up);
+    repetition_case(true, 1, 5, has_left, lower, up);
+    repetition_case(true, 1, 6, has_left, lower, up);
+    repetition_case(true, 1, 7, has_left, lower, up);
+    repetition_case(true, 2, 0, has_left, lower, up);
+    repetition_case(true, 2, 1, has_left, lower, up);
+    repetition_case(true, 2, 2, has_left, lower, up);
+    repetition_case(true, 2, 3, has_left, lower, up);
+    repetition_case(true, 2, 4, has_left, lower, up);
+    repetition_case(true, 2, 5, has_left, lower, up);
+    repetition_case(true, 2, 6, has_left, lower, up);
+    repetition_case(true, 2, 7, has_left, lower, up);
+    repetition_case(true, 3, 0, has_left, lower, up);
+    repetition_case(true, 3, 1, has_left, lower, up);
+    repetition_case(true, 3, 2, has_left, lower, up);
+    repetition_case(true, 3, 3, has_left, lower, up);
+    repetition_case(true, 3, 4, has_left, lower, up);
+    repetition_case(true, 3, 5, has_left, lower, up);
+    repetition_case(true, 3, 6, has_left, lower, up);
+    repetition_case(true, 3, 7, has_left, lower, up);
+    repetition_case(true, 4, 0, has_left, lower, up);
+    repetition_case(true, 4, 1, has_left, lower, up);
+    repetition_case(true, 4, 2, has_left, lower, up);
+    repetition_case(true, 4, 3, has_left, lower, up);
+    repetition_case(true, 4, 4, has_left, lower, up);
+    repetition_case(true, 4, 5, has_left, lower, up);
+    repetition_case(true, 4, 6, has_left, lower, up);
+    repetition_case(true, 4, 7, has_left, lower, up);
+    repetition_case(true, 5, 0, has_left, lower, up);
+    repetition_case(true, 5, 1, has_left, lower, up);
+    repetition_case(true, 5, 2, has_left, lower, up);
+    repetition_case(true, 5, 3, has_left, lower, up);
+    repetition_case(true, 5, 4, has_left, lower, up);
+    repetition_case(true, 5, 5, has_left, lower, up);
+    repetition_case(true, 5, 6, has_left, lower, up);
+    repetition_case(true, 5, 7, has_left, lower, up);
+    repetition_case(true, 6, 0, has_left, lower, up);
+    repetition_case(true, 6, 1, has_left, lower, up);
+    repetition_case(true, 6, 2, has_left, lower, up);
+    repetition_case(true, 6, 3, has_left, lower, up);
+    repetition_case(true, 6, 4, has_left, lower, up);
+    repetition_case(true, 6, 5, has_left, lower, up);
+    repetition_case(true, 6, 6, has_left, lower, up);
+    repetition_case(true, 6, 7, has_left, lower, up);
+    repetition_case(true, 7, 0, has_left, lower, up);
+    repetition_case(true, 7, 1, has_left, lower, up);
+    repetition_case(true, 7, 2, has_left, lower, up);
+    repetition_case(true, 7, 3, has_left, lower, up);
+    repetition_case(true, 7, 4, has_left, lower, up);
+    repetition_case(true, 7, 5, has_left, lower, up);
+    repetition_case(true, 7, 6, has_left, lower, up);
+    repetition_case(true, 7, 7, has_left, lower, up);
+    repetition_case(false, 0, 0, has_left, lower, up);
+    repetition_case(false, 1, 0, has_left, lower, up);
+    repetition_case(false, 2, 0, has_left, lower, up);
+    repetition_case(false, 3, 0, has_left, lower, up);
+    repetition_case(false, 4, 0, has_left, lower, up);
+    repetition_case(false, 5, 0, has_left, lower, up);
+    repetition_case(false, 6, 0, has_left, lower, up);
+    repetition_case(false, 7, 0, has_left, lower, up);
+}
+fn repetition_case(two: bool, ks: u8, ke: u8, has_left: bool, lower: usize, upper: Option<usize>) {
+    let (ts, te, tl) = (v_tok(ks), v_tok(ke), v_tok(0));
     let terminals = if two { Terminals::StartEnd(&ts, &te) } else { Terminals::Only(&ts) };
     let outer = Outer { left: if has_left { Some(&tl) } else { None }, right: None };
-    let variance = NaturalRange::from_closed_and_open(lower, if bounded { Some(upper) } else { None });
-    vcover!(lower == 0 && bounded && upper == 3 && ks == 5 && !has_left);
-    vcover!(two && ks == 5 && ke == 6);
-    vcover!(!two && ks == 3);
+    let variance = NaturalRange::from_closed_and_open(lower, upper);
     let r = check_repetition(terminals, outer, variance);
-    let k = kind_of(&r);
-    let rooted = !has_left && lower == 0 && is_rooting(ks);
-    let closed = two && is_b(ks) && is_b(ke);
+    let k = v_kind_of(&r);
+    let rooted = !has_left && lower == 0 && v_is_rooting(ks);
+    let closed = two && v_is_b(ks) && v_is_b(ke);
     let singular_separator = !two && ks == 5;
-    let singular_zom = !two && is_z(ks);
+    let singular_zom = !two && v_is_z(ks);
     assert!((k != 0) == (rooted || closed || singular_separator || singular_zom), "C06 a repetition body is rejected exactly for a rooting optional body, a body closed by boundaries on both sides, or a singular separator / zero-or-more wildcard");
     if rooted {
         assert!(k == 1, "C06 an optional repetition that can root the expression is a rooted sub-glob");
@@ -146,13 +493,44 @@ fn ob_c06_repetition_table(two: bool, ks: u8, ke: u8, has_left: bool, lower: usi
     core::mem::forget((ts, te, tl));
 }
 
+//@ob C06.branch.rooted.nested
+//@ props: C06 C12 C05
+//@ kind: complete
+//@ tier: thorough
+//@ unwind: 6
+//@ timeout: 1500
+//@ fns: src/rule.rs::branch::check_alternation src/rule.rs::branch::check_repetition src/rule.rs::branch::has_starting_root src/rule.rs::branch::is_rooting src/token/walk.rs::starting
+//@ pre: an alternation branch, or the body of an OPTIONAL repetition, that begins with a nested repetition `</a:1,>` (at least one occurrence of a body that begins with a separator, so the nested token is always rooted); nothing precedes the enclosing branch
+//@ post: the REAL check_alternation / check_repetition reject it as a rooted sub-glob: no alternation branch and no optional repetition can root the expression, also when the rooting token sits inside a nested branch (`{</a:1,>,b}`, `<</a:1,>:0,1>` would be sometimes rooted); with something on the left nothing is rejected
+fn ob_c06_branch_rooted_nested(has_left: bool, optional: bool) {
+    vcover!(!has_left && optional);
+    rooted_nested_case(false, 0, has_left, optional);
+    rooted_nested_case(true, 0, has_left, optional);
+}
+fn rooted_nested_case(two: bool, ke: u8, has_left: bool, optional: bool) {
+    let ts = crate::token::verif_kani_token::rooted_repetition_token((1, 8));
+    let (te, tl) = (v_tok(ke), v_tok(0));
+    let terminals = if two { Terminals::StartEnd(&ts, &te) } else { Terminals::Only(&ts) };
+    let outer = Outer { left: if has_left { Some(&tl) } else { None }, right: None };
+    let r = check_alternation(terminals, outer);
+    assert!((v_kind_of(&r) == 1) == !has_left, "C06 an alternation branch that begins with an always-rooted nested branch roots the expression");
+    assert!(v_kind_of(&r) <= 1, "C06 nothing else is wrong with it");
+    core::mem::forget(r);
+    let variance = if optional { NaturalRange::from_closed_and_open(0, Some(1)) } else { NaturalRange::from_closed_and_open(1, Some(2)) };
+    let r = check_repetition(terminals, outer, variance);
+    assert!((v_kind_of(&r) == 1) == (!has_left && optional), "C06 an optional repetition whose body begins with an always-rooted nested branch roots the expression");
+    assert!(v_kind_of(&r) <= 1, "C06 nothing else is wrong with it");
+    core::mem::forget(r);
+    core::mem::forget((ts, te, tl));
+}
+
 // one neighbour of a CONSTANT leaf kind: the four predicates through the real starting / ending walks
 fn neighbour_case(k: u8) {
-    let t = tok(k);
-    assert!(has_ending_boundary(Some(&t)) == is_b(k), "C06 a leaf neighbour ends with a boundary iff it is a separator or a tree wildcard");
-    assert!(has_starting_boundary(Some(&t)) == is_b(k), "C06 a leaf neighbour begins with a boundary iff it is a separator or a tree wildcard");
-    assert!(has_ending_zom(Some(&t)) == is_z(k), "C06 a leaf neighbour ends with a zero-or-more wildcard iff it is one");
-    assert!(has_starting_zom(Some(&t)) == is_z(k), "C06 a leaf neighbour begins with a zero-or-more wildcard iff it is one");
+    let t = v_tok(k);
+    assert!(has_ending_boundary(Some(&t)) == v_is_b(k), "C06 a leaf neighbour ends with a boundary iff it is a separator or a tree wildcard");
+    assert!(has_starting_boundary(Some(&t)) == v_is_b(k), "C06 a leaf neighbour begins with a boundary iff it is a separator or a tree wildcard");
+    assert!(has_ending_zom(Some(&t)) == v_is_z(k), "C06 a leaf neighbour ends with a zero-or-more wildcard iff it is one");
+    assert!(has_starting_zom(Some(&t)) == v_is_z(k), "C06 a leaf neighbour begins with a zero-or-more wildcard iff it is one");
     core::mem::forget(t);
 }
 
@@ -183,7 +561,7 @@ fn ob_c06_neighbour_predicates(dummy: bool) {
 //@ pre: an inherited context (left / right neighbour of an enclosing branch, each present or absent) and the immediate neighbours of a nested branch (each present or absent)
 //@ post: the REAL Outer::or keeps an immediate neighbour where there is one and inherits the enclosing branch's neighbour only where there is none -- on each side independently
 fn ob_c06_outer_or(il: bool, ir: bool, nl: bool, nr: bool) {
-    let (a, b, c, d) = (tok(0), tok(1), tok(2), tok(5));
+    let (a, b, c, d) = (v_tok(0), v_tok(1), v_tok(2), v_tok(5));
     let inherited = Outer { left: if il { Some(&a) } else { None }, right: if ir { Some(&b) } else { None } };
     let merged = inherited.or(if nl { Some(&c) } else { None }, if nr { Some(&d) } else { None });
     vcover!(il && !nl);
@@ -205,7 +583,7 @@ fn ob_c06_outer_or(il: bool, ir: bool, nl: bool, nr: bool) {
 //@ pre: none
 //@ post: must FAIL
 fn ob_c06_rule_canary(k: u8) {
-    let t = tok(1);
+    let t = v_tok(1);
     let _ = t.as_leaf().is_some();
     core::mem::forget(t);
     assert!(k != 3, "canary");
